@@ -106,7 +106,7 @@ impl Prop for C12 {
     fn spaces(&self, tier: Tier) -> Vec<Space> {
         match tier {
             Tier::Quick => vec![Space { name: "sum", size: 4000, exhaustive: false, chunk: 200, case_timeout_s: 60.0, what: "generated programs that build values of (recursive, boxed) user sum types per sample and match on them x run length 2N" }, Space { name: "gen", size: 30000, exhaustive: false, chunk: 200, case_timeout_s: 60.0, what: "generated programs that create closures per sample (lambdas, local closures, lambdas passed to higher-order functions, maker calls) x run length 2N" }],
-            Tier::Thorough => vec![Space { name: "sum", size: 100_000, exhaustive: false, chunk: 500, case_timeout_s: 60.0, what: "generated programs that build values of (recursive, boxed) user sum types per sample x run length 2N" }, Space { name: "gen", size: 150_000, exhaustive: false, chunk: 1000, case_timeout_s: 60.0, what: "generated programs that create closures per sample x run length 2N" }],
+            Tier::Thorough => vec![Space { name: "sum", size: 400_000, exhaustive: false, chunk: 500, case_timeout_s: 60.0, what: "generated programs that build values of (recursive, boxed) user sum types per sample x run length 2N" }, Space { name: "gen", size: 1_200_000, exhaustive: false, chunk: 1000, case_timeout_s: 60.0, what: "generated programs that create closures per sample x run length 2N" }],
         }
     }
     fn run(&self, space: &str, _index: u64, g: &mut Gen, cx: &Cx) -> CaseResult {
